@@ -110,11 +110,12 @@ namespace pika::thread_pool_bulk_detail {
                 template <typename Ts>
                 void do_work_chunk(Ts& ts, std::uint32_t const index) const
                 {
-                    auto const i_begin =
-                        static_cast<Shape>(index) * static_cast<Shape>(task_f->chunk_size);
-                    auto const i_end = (std::min)(
-                        (static_cast<Shape>(index) + 1) * static_cast<Shape>(task_f->chunk_size),
-                        task_f->n);
+                    auto const chunk_size = static_cast<Shape>(task_f->chunk_size);
+                    auto const i_begin = static_cast<Shape>(index) * chunk_size;
+                    // i_begin < n for every chunk index; (index + 1) * chunk_size may not be
+                    // representable in Shape for the last chunk
+                    auto const i_end =
+                        task_f->n - i_begin > chunk_size ? i_begin + chunk_size : task_f->n;
                     for (auto i = i_begin; i < i_end; ++i)
                     {
                         std::apply(pika::util::detail::bind_front(op_state->f, i), ts);
